@@ -356,8 +356,20 @@ def case_cluster(ctx, rng, idx):
                            detail={**tag, "point": p, "cells": [i + 1, j + 1]})
     # users and distance matrices
     nu = int(rng.integers(1, 4))
-    okc, _ = ctx.call("cluster-distances", cl.add_random_users, None, nu, None,
-                      float(rng.choice([0.0, 0.3])), detail=tag)
+    cratio = float(rng.choice([0.0, 0.3, 0.6]))
+    how = int(rng.integers(0, 3))
+    if how == 0:
+        okc, _ = ctx.call("cluster-distances", cl.add_random_users, None, nu, None, cratio,
+                          detail=tag)
+    elif how == 1:       # explicit list of cell ids
+        okc, _ = ctx.call("cluster-distances", cl.add_random_users,
+                          list(range(1, ncell + 1)), nu, None, cratio, detail=tag)
+    else:                # one cell at a time
+        okc = True
+        for cid in range(1, ncell + 1):
+            o, _ = ctx.call("cluster-distances", cl.add_random_users, cid, nu, None, cratio,
+                            detail=tag)
+            okc = okc and o
     if okc:
         users = cl.get_all_users()
         ctx.ev("cluster-distances", len(users) == nu * ncell, cls="user-count", detail=tag)
@@ -377,6 +389,11 @@ def case_cluster(ctx, rng, idx):
             Vc = np.asarray(c.vertices)
             for u in c.users:
                 p = complex(u.pos)
+                rad_c = float(c.radius)
+                ctx.ev("users-min-distance", abs(p - c.pos) >= cratio * rad_c * (1 - 1e-12),
+                       cls="cluster-%s" % ctype,
+                       detail={**tag, "user": p, "cell": c.id, "ratio": cratio,
+                               "dist_over_R": abs(p - c.pos) / rad_c})
                 if dist_to_boundary(p, Vc) > 1e-9 * R:
                     ctx.ev("users-inside", point_in_polygon(p, Vc),
                            cls="cluster-%s:%s" % (ctype, "rotated" if rc != "zero" else
